@@ -148,6 +148,10 @@ type Case struct {
 	FileName string     `json:"file_name"` // base name incl. extension ("" extension = none)
 	Order    zipw.Order `json:"order"`
 	Decoys   []Decoy    `json:"decoys,omitempty"`
+	// Embed: the package holds an embedded object of another Office format: a member under <own dir>/embeddings/
+	// and a <Default Extension=… ContentType=…/> entry for it in [Content_Types].xml (OPC §10.1.2.2.2), as
+	// Office writes for an embedded document, workbook or presentation.
+	Embed string `json:"embed,omitempty"` // "" | docx | xlsx | pptx
 	// EPUB only
 	Chapters int   `json:"chapters,omitempty"`
 	Rights   bool  `json:"rights,omitempty"`
@@ -206,6 +210,19 @@ func (c Case) build() ([]byte, error) {
 	}
 	if err != nil {
 		return nil, err
+	}
+	if c.Embed != "" && (c.Format == "docx" || c.Format == "xlsx" || c.Format == "pptx") {
+		ct := map[string]string{"docx": "application/vnd.openxmlformats-officedocument.wordprocessingml.document",
+			"xlsx": "application/vnd.openxmlformats-officedocument.spreadsheetml.sheet",
+			"pptx": "application/vnd.openxmlformats-officedocument.presentationml.presentation"}[c.Embed]
+		dir := map[string]string{"docx": "word", "xlsx": "xl", "pptx": "ppt"}[c.Format]
+		for i, m := range ms {
+			if m.Name == "[Content_Types].xml" {
+				def := fmt.Sprintf(`<Default Extension="%s" ContentType="%s"/>`, c.Embed, ct)
+				ms[i].Data = bytes.Replace(m.Data, []byte("<Default "), []byte(def+"<Default "), 1)
+			}
+		}
+		ms = append(ms, zipw.Member{Name: dir + "/embeddings/Embedded_Object1." + c.Embed, Data: []byte("PK\x03\x04 (an embedded package; opaque to the host document)")})
 	}
 	for i, m := range ms {
 		if m.Name == "mimetype" {
@@ -311,6 +328,9 @@ func checkCase(c Case) error {
 		}
 		if _, err := epubdoc.Open(path); !errors.Is(err, epubdoc.ErrDRMProtected) {
 			return fmt.Errorf("epubdoc.Open on a DRM-protected EPUB: err = %v, want ErrDRMProtected", err)
+		}
+		if _, err := epubdoc.OpenReader(bytes.NewReader(data), int64(len(data))); !errors.Is(err, epubdoc.ErrDRMProtected) {
+			return fmt.Errorf("epubdoc.OpenReader on a DRM-protected EPUB: err = %v, want ErrDRMProtected", err)
 		}
 	case nameFmt == fmtOf[c.Format] && (c.Format != "epub" || (judged && !drm)):
 		// own extension (any case, .htm): opens and yields its token
@@ -465,6 +485,9 @@ func genAdmission(t *rapid.T) Case {
 		c.Order = zipw.GenOrder(t, "order")
 		if f == "docx" || f == "xlsx" || f == "pptx" {
 			c.Decoys = genDecoys(t, f)
+			if rapid.IntRange(0, 2).Draw(t, "embed") == 0 {
+				c.Embed = rapid.SampledFrom([]string{"docx", "xlsx", "pptx"}).Draw(t, "embedKind")
+			}
 		}
 	}
 	if f == "epub" {
@@ -508,6 +531,10 @@ func meta(c Case) vr.Meta {
 	default:
 		labels = append(labels, "name:other-supported")
 		nt = true
+	}
+	if c.Embed != "" {
+		nt = true
+		labels = append(labels, "embedded:"+c.Embed)
 	}
 	if len(c.Decoys) > 0 {
 		nt = true
